@@ -141,7 +141,13 @@ def diff_problems(a, b, rel=Fraction(1, 10**9), geometry_equal=None, compare_com
     geometry_equal: optional callback (words_a, words_b) -> bool used when the token lists differ
     (e.g. truth-table equality); without it geometry is compared word by word."""
     d = []
-    if [m.rstrip() for m in a["message"]] != [m.rstrip() for m in b["message"]]:
+    def _msg(ms):
+        ms = [m.rstrip() for m in ms]
+        if ms and ms[0][:8].lower() == "message:":
+            ms[0] = "message:" + ms[0][8:]  # the keyword itself is case-insensitive
+        return ms
+
+    if _msg(a["message"]) != _msg(b["message"]):
         d.append(("message", "message", (a["message"], b["message"])))
     if a["title"].rstrip() != b["title"].rstrip():
         d.append(("title", "title", (a["title"], b["title"])))
